@@ -201,7 +201,8 @@ def one_trace(tid, nrep, ngen, loginit, lrep0, via_initop, rng, script=None):
 def run(ctx):
     rng = random.Random(ctx.seed)
     thorough = ctx.tier == "thorough"
-    ctx.rule = ("TLC model-checks the loop skeleton with environment operators that keep/mutate/replace every state "
+    ctx.rule = ("Apalache proves an inductive invariant of the same actions for unbounded replicate / generation counts; "
+                "TLC model-checks the loop skeleton with environment operators that keep/mutate/replace every state "
                 "slot; TLC-simulated behaviours are replayed through the real evolve() with scripted instrumented "
                 "operators, random ones are added; every recorded call trace is validated by TLC (BreedingLoop_Trace); "
                 "a trace is non-trivial if it has >=2 replicates and at least one in-place mutation; distinct by "
@@ -222,6 +223,24 @@ def run(ctx):
         ctx.add_tlc(rv, "BreedingLoop_%s.cfg (expected counterexample)" % v)
         if rv.violated != "StartNeverModified":
             raise tlc.TLCFailure("non-vacuity demonstration failed: ResetMode=%s did not violate StartNeverModified" % v)
+    # 1b. unbounded: Apalache discharges an inductive invariant for ANY number of replicates and generations
+    from .. import apalache
+    from concurrent.futures import ThreadPoolExecutor
+    obligations = (("base: IndInit => IndInv", "IndInit", "IndInv", "NextDeep", 0, "NoError"),
+                   ("step: IndInv /\\ Next => IndInv'", "IndInv", "IndInv", "NextDeep", 1, "NoError"),
+                   ("consequence: IndInv => the five invariants of BreedingLoop", "IndInv", "Safety", "NextDeep", 0, "NoError"),
+                   ("non-vacuity: a shallow reset reaches a modified start within 4 steps", "IndInit", "Safety", "NextShallow", 4, "Error"))
+    with ThreadPoolExecutor(max_workers=4) as ex:
+        futs = [ex.submit(apalache.check, "BreedingLoop_Apa", o[1], o[2], o[3], o[4]) for o in obligations]
+        apa = [f.result() for f in futs]
+    for o, a in zip(obligations, apa):
+        a["obligation"] = o[0]; a["expected"] = o[5]
+        if a["outcome"] != o[5]:
+            if o[5] == "NoError":
+                ctx.violation("spec:BreedingLoop:unbounded:" + o[2], "Apalache: %s fails (design-level, unbounded counters)" % o[0], a)
+            else:
+                raise tlc.TLCFailure("non-vacuity demonstration failed (Apalache): " + o[0])
+    ctx.extra["apalache_unbounded"] = apa
     # 2. spec -> code: behaviours generated by TLC simulation
     num = 150 if thorough else 40
     g = tlc.run("BreedingLoop_MC", "BreedingLoop_gen.cfg", simulate="num=%d" % num, depth=200, workers=1,
